@@ -26,6 +26,20 @@ type exprCase struct {
 	Names  map[string]string   `json:"names,omitempty"`
 	Values map[string]model.AV `json:"values,omitempty"`
 	API    bool                `json:"api,omitempty"`
+	// Warm: another expression (a twin of Expr that differs in the letter case
+	// of one identifier) evaluated first on the same interpreter instance
+	Warm       string              `json:"warm,omitempty"`
+	WarmNames  map[string]string   `json:"warmNames,omitempty"`
+	WarmValues map[string]model.AV `json:"warmValues,omitempty"`
+
+	lang *interpreter.Language // one instance per case (nil: a fresh one per call)
+}
+
+func (c exprCase) interp() *interpreter.Language {
+	if c.lang != nil {
+		return c.lang
+	}
+	return &interpreter.Language{}
 }
 
 // richItem draws an item that contains (most of) the ten types, nested
@@ -153,7 +167,7 @@ func implMatch(c exprCase) (o model.Outcome, text string, runtimePanic bool) {
 			o = model.OE
 		}
 	}()
-	li := &interpreter.Language{}
+	li := c.interp()
 	ok, err := li.Match(interpreter.MatchInput{TableName: "t", Expression: c.Expr, ExpressionType: interpreter.ExpressionTypeFilter,
 		Item: drv.ToTypesItem(c.Item), Attributes: drv.ToTypesItem(c.Values), Aliases: c.Names})
 	if err != nil {
@@ -203,8 +217,12 @@ func runC06(c exprCase, info *c06Info) *failure {
 	empty := model.EvalCond(e, model.Env{Item: model.Item{}, Names: c.Names, Values: c.Values})
 	info.dependent = want.Single() && empty.Single() && want != empty
 	beforeItem, beforeVals := model.CanonItem(c.Item), model.CanonItem(c.Values)
-	typedItem := drv.ToTypesItem(c.Item)
-	_ = typedItem
+	c.lang = &interpreter.Language{}
+	if c.Warm != "" {
+		if _, wt, wrtp := implMatch(exprCase{Expr: c.Warm, Item: model.CloneItem(c.Item), Names: c.WarmNames, Values: c.WarmValues, lang: c.lang}); wrtp {
+			return newFail("runtime panic", "Match(%q): %s", c.Warm, wt)
+		}
+	}
 	got, text, rtp := implMatch(c)
 	if rtp {
 		return newFail("runtime panic", "Match(%q): %s", c.Expr, text)
@@ -285,7 +303,7 @@ func c06API(c exprCase, want model.Outcome) *failure {
 	return nil
 }
 
-const ruleC06 = "rapid: (condition AST, item, bindings) - ASTs up to depth 6 over comparators, BETWEEN, IN, AND/OR/NOT, parentheses, document paths (nested members, list elements, elements past the end, missing parents), #name/:value placeholders and the six functions; operands drawn from an item holding (most of) the ten types so that ~half of the atoms are well typed and present, the rest type mismatches, absences, NULL-typed attributes; rendered with random extra whitespace. Oracle: the reference evaluator's outcome set vs interpreter.Language.Match called directly; plus purity of item and bindings, commutation of AND/OR operands, and for a tenth of the cases the same condition as Scan filter and PutItem condition through both SDK clients. Non-trivial = >= 2 atoms and a singleton model outcome that flips when the item is replaced by the empty item; distinct = hash of (expression, item, bindings)."
+const ruleC06 = "rapid: (condition AST, item, bindings) - ASTs up to depth 6 over comparators, BETWEEN, IN, AND/OR/NOT, parentheses, document paths (nested members, list elements, elements past the end, missing parents), #name/:value placeholders and the six functions; operands drawn from an item holding (most of) the ten types so that ~half of the atoms are well typed and present, the rest type mismatches, absences, NULL-typed attributes; rendered with random extra whitespace. In an eighth of the cases a twin that differs only in the letter case of one identifier is evaluated first on the same interpreter instance. Oracle: the reference evaluator's outcome set vs interpreter.Language.Match called directly; plus purity of item and bindings, commutation of AND/OR operands, and for a tenth of the cases the same condition as Scan filter and PutItem condition through both SDK clients. Non-trivial = >= 2 atoms and a singleton model outcome that flips when the item is replaced by the empty item; distinct = hash of (expression, item, bindings)."
 
 // TestC06 decides property C06.
 func TestC06(t *testing.T) {
@@ -314,6 +332,12 @@ func propC06(rt *rapid.T) {
 		ec.Names, ec.Values = pruneUnused(ec.Names, ec.Values, ec.Expr)
 		if len(ec.Names) == 0 {
 			ec.Names = nil
+		}
+		if rapid.IntRange(0, 7).Draw(rt, "caseTwinFirst") == 0 {
+			if tw, n2, v2, ok := condCaseTwin(rt, e, ec.Names, ec.Values); ok {
+				ec.Warm, ec.WarmNames, ec.WarmValues = tw, n2, v2
+				st.Class("case-twin-evaluated-first")
+			}
 		}
 		pending("C06", "c06", ec)
 		info := &c06Info{}
@@ -391,7 +415,7 @@ func implUpdate(c exprCase) (item model.Item, errText string, failed bool, runti
 			item = drv.FromTypesItem(typed)
 		}
 	}()
-	li := &interpreter.Language{}
+	li := c.interp()
 	err := li.Update(interpreter.UpdateInput{TableName: "t", Expression: c.Expr, Item: typed, Attributes: drv.ToTypesItem(c.Values), Aliases: c.Names})
 	if err != nil {
 		return drv.FromTypesItem(typed), err.Error(), true, false
@@ -439,6 +463,12 @@ func runC07(c exprCase, info *c07Info) *failure {
 	}
 	before := model.CanonItem(c.Item)
 	beforeVals := model.CanonItem(c.Values)
+	c.lang = &interpreter.Language{}
+	if c.Warm != "" {
+		if _, wt, _, wrtp := implUpdate(exprCase{Expr: c.Warm, Item: model.CloneItem(c.Item), Names: c.WarmNames, Values: c.WarmValues, lang: c.lang}); wrtp {
+			return newFail("runtime panic", "Update(%q): %s", c.Warm, wt)
+		}
+	}
 	got, errText, failed, rtp := implUpdate(c)
 	if rtp {
 		return newFail("runtime panic", "Update(%q): %s", c.Expr, errText)
@@ -506,7 +536,7 @@ func c07API(c exprCase, res model.UpdateResult) *failure {
 	return nil
 }
 
-const ruleC07 = "rapid: (update AST, item or absent item, bindings) - 1-4 clauses (SET with values, paths, + and -, if_not_exists, list_append; REMOVE of attributes, map members and list elements; ADD to numbers and sets; DELETE from sets) with 1-4 actions over non-overlapping targets, on items holding nested documents, lists and sets plus untargeted attributes of every type. Oracle: the reference update semantics vs interpreter.Language.Update called directly - success/rejection, and on success equality of the entire item (targeted values, removed attributes gone, every other attribute unchanged by value); on rejection the item is unchanged; for a tenth of the cases also UpdateItem + GetItem through both SDK clients, on an existing item and on an absent key. Non-trivial = >= 2 actions or a nested / list target; distinct = hash of (expression, item, bindings)."
+const ruleC07 = "rapid: (update AST, item or absent item, bindings) - 1-4 clauses (SET with values, paths, + and -, if_not_exists, list_append; REMOVE of attributes, map members and list elements; ADD to numbers and sets; DELETE from sets) with 1-4 actions over non-overlapping targets, on items holding nested documents, lists and sets plus untargeted attributes of every type. In an eighth of the cases a twin that differs only in the letter case of one identifier is applied first (to a copy of the item) on the same interpreter instance. Oracle: the reference update semantics vs interpreter.Language.Update called directly - success/rejection, and on success equality of the entire item (targeted values, removed attributes gone, every other attribute unchanged by value); on rejection the item is unchanged; for a tenth of the cases also UpdateItem + GetItem through both SDK clients, on an existing item and on an absent key. Non-trivial = >= 2 actions or a nested / list target; distinct = hash of (expression, item, bindings)."
 
 // TestC07 decides property C07.
 func TestC07(t *testing.T) {
@@ -529,6 +559,12 @@ func TestC07(t *testing.T) {
 		}
 		if len(ec.Values) == 0 {
 			ec.Values = nil
+		}
+		if rapid.IntRange(0, 7).Draw(rt, "caseTwinFirst") == 0 {
+			if tw, n2, v2, ok := updateCaseTwin(rt, u, ec.Names, ec.Values); ok {
+				ec.Warm, ec.WarmNames, ec.WarmValues = tw, n2, v2
+				st.Class("case-twin-evaluated-first")
+			}
 		}
 		pending("C07", "c07", ec)
 		info := &c07Info{}
